@@ -284,7 +284,7 @@ let run_spec (c : case) (rest : string) =
   let (outcome, chunks, more) = group toks in
   judge c ~peer:true outcome chunks add;
   let subs, more = match more with
-    | t :: m when String.length t > 5 && String.sub t 0 5 = "subs=" -> (Some (int_of_string (String.sub t 5 (String.length t - 5))), m)
+    | t :: m when String.length t > 5 && String.sub t 0 5 = "subs=" -> ((try Some (int_of_string (String.sub t 5 (String.length t - 5))) with _ -> Some (-1)), m)
     | m -> (None, m) in
   (* the subscription afterwards: kept after a delivered (or empty) report and after silence, gone after a refusal
      or a ResourceExhausted ending *)
@@ -389,6 +389,9 @@ let () =
     while true do
       let line = input_line stdin in
       if String.length line > 2 && String.sub line 0 2 = "R " then begin
+        (* a line this driver cannot digest must not take the run down: it becomes an answer of its own *)
+        let id = (match String.split_on_char ' ' line with _ :: i :: _ -> i | _ -> "?") in
+        try
         if spec then begin
           (* <case> || <outcome> n=<k> | <chunks> ... *)
           let sep =
@@ -406,6 +409,10 @@ let () =
           Printf.printf "%s %s\n" c.id (coq_expected c)
         end else
           print_endline (run_model (parse_case (String.split_on_char ' ' line)))
+        with
+        | End_of_file -> raise End_of_file
+        | e -> Printf.printf "R %s driver-cannot-read-line:%s\n" id
+                 (String.concat "_" (String.split_on_char ' ' (Printexc.to_string e)))
       end
     done
   with End_of_file -> ()
